@@ -119,14 +119,25 @@ func (a *APIRunner) Load(rec *rectxn.Recorder, rows map[string]RowsJ) error {
 	for _, tn := range tables {
 		del = append(del, ovsdb.Operation{Op: "delete", Table: tn, Where: []ovsdb.Condition{}})
 	}
-	res, err := a.transact(del...)
-	if err != nil {
-		return err
-	}
-	for _, r := range res {
-		if r.Error != "" {
-			return fmt.Errorf("clearing the database: %s %s", r.Error, r.Details)
+	// a set-up transaction the database refuses is an observation, not a failure of the harness
+	setup := func(what string, res []ovsdb.OperationResult, err error) error {
+		msg := ""
+		if err != nil {
+			msg = err.Error()
 		}
+		for _, r := range res {
+			if r.Error != "" && msg == "" {
+				msg = r.Error + " " + r.Details
+			}
+		}
+		if msg == "" {
+			return nil
+		}
+		return rec.Emit(map[string]interface{}{"ev": "setup", "db": a.In.ID, "ok": false, "what": what, "err": msg})
+	}
+	res, err := a.transact(del...)
+	if err := setup("delete every row of every table", res, err); err != nil {
+		return err
 	}
 	var ins []ovsdb.Operation
 	for _, tn := range tables {
@@ -151,13 +162,8 @@ func (a *APIRunner) Load(rec *rectxn.Recorder, rows map[string]RowsJ) error {
 	}
 	if len(ins) > 0 {
 		res, err := a.transact(ins...)
-		if err != nil {
+		if err := setup("insert the rows of the case", res, err); err != nil {
 			return err
-		}
-		for _, r := range res {
-			if r.Error != "" {
-				return fmt.Errorf("loading rows: %s %s", r.Error, r.Details)
-			}
 		}
 	}
 	return a.Sync(rec)
